@@ -1,2 +1,4 @@
 -- Root of the `RainModel` library: models, lemmas, property theorems.
 import RainModel.Model.Blocks
+import RainModel.Model.Bencode
+import RainModel.Model.Codec
